@@ -77,6 +77,23 @@ def cases(tier, rng):
         ("min", {"default": ["l", ["i", 1]]}, []), ("max", {"key": 0, "default": ["l", ["i", 1]]}, []),
         ("reduce", {}, []), ("min", {}, []), ("max", {"key": 0}, []),
     ]
+    # odd winners: the selected element is None / a fill-like object / the empty tuple / False (what an "empty" marker,
+    # a truthiness test or a private sentinel is most easily confused with); the key function maps them to 0
+    for odd in (["n"], ["fill"], ["t"], ["b", False]):
+        for n in (1, 2, 3):
+            special += [
+                ("nlargest", {"n": n, "key": 0}, [["i", 1], odd, ["i", 2]]),      # negated keys: the odd item is the largest
+                ("nsmallest", {"n": n, "key": 0}, [["i", -1], odd, ["i", -2]]),  # ... the smallest
+                ("nlargest", {"n": n, "key": 0}, [odd]), ("nsmallest", {"n": n, "key": 0}, [odd]),
+                ("nlargest", {"n": n}, [odd]), ("nsmallest", {"n": n}, [odd]),
+                ("nlargest", {"n": n, "key": 0}, [odd, odd]), ("nsmallest", {"n": n}, [odd, odd]),
+            ]
+        special += [
+            ("max", {"key": 0}, [["i", 1], odd, ["i", 2]]), ("min", {"key": 0}, [["i", -1], odd, ["i", -2]]),
+            ("max", {}, [odd]), ("min", {}, [odd]), ("max", {"default": ["i", 7]}, [odd]), ("min", {"key": 0, "default": ["i", 7]}, [odd]),
+            ("sorted", {"key": 0}, [["i", 1], odd, ["i", -1]]), ("sorted", {"key": 0, "reverse": True}, [odd, ["i", 1], odd]),
+            ("reduce", {}, [odd]), ("reduce", {"initial": odd}, []), ("sum", {"start": odd}, []),
+        ]
     for tool, params, script in special:
         for kind in KINDS:
             fns = [dict(KEYF, flavour="async")] if params.get("key") is not None else ([dict(PAIR, flavour="def")] if tool == "reduce" else [])
@@ -135,6 +152,9 @@ def model_request(case):  # noqa: F811
     vals = list(case["srcs"][0]["script"]) + [v for k, v in case["params"].items() if isinstance(v, list)]
     if not all(_plain(v) for v in vals):
         return None
+    if case["tool"] in ("nlargest", "nsmallest") and case["params"].get("key") is None and len(vals) >= 2 \
+            and any(v[0] not in ("o", "i", "b") for v in case["srcs"][0]["script"]):
+        return None     # equal-but-unorderable items: decided by tuple comparison (== before <); oracle only
     return tools.model_request(case)
 
 
